@@ -53,7 +53,11 @@ func Walk(buf []byte, start, end int) ([]*Box, error) {
 			if end-pos < 16 {
 				return out, fmt.Errorf("short largesize header at %d", pos)
 			}
-			size = int(binary.BigEndian.Uint64(buf[pos+8:]))
+			u := binary.BigEndian.Uint64(buf[pos+8:])
+			if u > uint64(end-pos) {
+				return out, fmt.Errorf("box at %d: 64-bit size %d beyond the enclosing range", pos, u)
+			}
+			size = int(u)
 			hdr = 16
 		} else if size == 0 {
 			size = end - pos
